@@ -93,7 +93,7 @@ def honour_pins(old, new):
 
 def make_history(rng, n_edits, concat_scenario=False):
     spec = vprog.gen_spec(rng, n_m=rng.randint(2, 4), n_p=rng.randint(1, 3), n_v=rng.randint(1, 3), p_hidden=0.12, p_explicit=0.2, allow_cycles=False,
-                          pkg2=rng.random() < 0.4, lambdas=rng.random() < 0.4, twins=True)
+                          pkg2=rng.random() < 0.4, lambdas=rng.random() < 0.4, twins=True, hdr=True)
     eds, descs = [spec], ["initial"]
     for _ in range(n_edits):
         nxt, d = vprog.edit(rng, eds[-1])
@@ -191,6 +191,19 @@ def genexpr_twin_history():
              "value of variable T0 (a.SCALE)", "value of variable T1 (b.SCALE)", "values of a.SCALE and b.SCALE exchanged"])
 
 
+def header_default_history():
+    """a plain helper named only in the header of its user (default value of a parameter), in a plain helper and in a
+    memento function; the helper's body is edited"""
+    def fn(name, kind, module, const, refs=()):
+        return {"name": name, "kind": kind, "module": module, "const": const, "default": None, "kwdefault": None, "setconst": None, "tupconst": None,
+                "sset": None, "pair": None, "nested": None, "explicit": None, "hidden": None, "shadow": None, "refs": [list(r) for r in refs]}
+
+    def mk(c0, c2):
+        return {"pkg": "vpk", "nodes": [fn("h0", "p", "a", c0), fn("h1", "p", "a", 5, [("h0", "hdr")]), fn("m0", "m", "a", 10, [("h1", "bare")]),
+                                        fn("h2", "p", "b", c2), fn("m1", "m", "b", 20, [("h2", "hdr")]), fn("m2", "m", "b", 30, [("m1", "bare")])]}
+    return [mk(3, 7), mk(4, 7), mk(4, 9)], ["initial", "helper-const: body constant of h0 (named only in the header of h1)", "helper-const: body constant of h2 (named only in the header of m1)"]
+
+
 def calls_of(spec):
     return [[m, x] for m in vprog.mnames(spec) if vprog.node(spec, m)["explicit"] is None for x in (1, 2)]
 
@@ -207,7 +220,7 @@ def run(tier, seed):
     terms, metas = [], []
     with C.Scratch("c01") as scratch:
         jobs = []
-        for hi in range(n_hist + 5):
+        for hi in range(n_hist + 6):
             if hi == n_hist:
                 eds, descs = concat_history()
             elif hi == n_hist + 1:
@@ -218,9 +231,16 @@ def run(tier, seed):
                 eds, descs = builtin_shadow_history()
             elif hi == n_hist + 4:
                 eds, descs = genexpr_twin_history()
+            elif hi == n_hist + 5:
+                eds, descs = header_default_history()
             else:
                 eds, descs = make_history(rng, rng.randint(2, 4) if tier == "quick" else rng.randint(2, 6))
-            jobs.append((hi, eds, descs, rng.choice(["reload", "exec"]), str(rng.randint(0, 100000))))
+            how_ = rng.choice(["reload", "exec"])
+            if any(r_[1] == "hdr" for e_ in eds for n_ in e_["nodes"] for r_ in (n_.get("refs") or [])):
+                # a default value is bound when its function is defined: re-executing one definition on its own would leave the
+                # users of an edited helper bound to the old object (which is what Python does, not a stale result) -> whole modules
+                how_ = "reload"
+            jobs.append((hi, eds, descs, how_, str(rng.randint(0, 100000))))
 
         def work(job):
             hi, eds, descs, how, hs = job
